@@ -25,7 +25,11 @@
 (* The same runs check the specification's algebraic identities as          *)
 (* invariants (Identities).                                                 *)
 EXTENDS Jmespath, Json
-CONSTANTS Mode, MaxDepth, WrapSet, SlRange, EmitAst
+CONSTANTS Mode, MaxDepth, WrapSet, SlRange, EmitAst,
+          ExcludeFilterOnNonArray,   \* TRUE: do not compare cases that hit suspected defect 1 (notes/C13.md)
+          ExcludeMergeNoOverride,    \* TRUE: do not compare cases that hit suspected defect 2 (notes/C13.md)
+          ExcludeNotBeforePipe,      \* TRUE: do not generate expressions that hit suspected defect 3
+          ExcludePipeIntoLiteral     \* TRUE: do not generate expressions that hit suspected defect 4
 VARIABLES e, depth
 
 A == <<97>>  B == <<98>>
@@ -152,33 +156,37 @@ FnWraps(x) == { Fn(n, <<x>>) : n \in Fn1 }
 RhsL == Pick({Fa}, {Cur}, {})
 RhsWraps(x) == UNION { { <<"prj", l, x>>, <<"flt", l, x>>, <<"vpr", l, x>>, <<"fil", l, Fa, x>>, <<"fil", l, x, Cur>>,
                          <<"slc", l, Sl(N(1), Ab, Ab), x>> } : l \in RhsL }
-Wraps(x) == { y \in PostWraps(x) \cup BinWraps(x) \cup SelWraps(x) \cup FnWraps(x) \cup RhsWraps(x) : Renderable(y) }
+\* an expression is generated when its string reading is unambiguous and it does not hit an excluded known deviation
+Gen(y) == Renderable(y) /\ (ExcludeNotBeforePipe => ~HasNotBeforePipe(y)) /\ (ExcludePipeIntoLiteral => ~HasPipeIntoLiteral(y))
+Wraps(x) == { y \in PostWraps(x) \cup BinWraps(x) \cup SelWraps(x) \cup FnWraps(x) \cup RhsWraps(x) : Gen(y) }
 
 Bases == Pick({Cur, Fa, Fb}, {}, {I(1), Raw(A), L(Ar(<<JInt(1), Ar(<<JInt(2)>>), JNull>>))})
 
 -----------------------------------------------------------------------------
-(* fn mode *)
+(* fn mode.  (The case sets take a dummy parameter so that TLC does not pre-compute them in every mode.) *)
 AllFns == KnownFns \cup {"foo"}
 ArrIS == Ar(<<JInt(1), S(A)>>)
 ArgsBig == { L(JNull), L(JBool(TRUE)), I(Neg(1)), I(2), Raw(A), Raw(<<97, 98>>), Raw(<<>>), Raw(<<49>>), L(EmptyArr), L(Ar(<<JInt(2), JInt(1)>>)),
              L(Ar(<<S(B), S(A)>>)), L(ArrIS), L(EmptyObj), L(OA1), Fa, Cur, Ref(Fa), Ref(Cur) }
 ArgsSmall == { L(JNull), I(2), Raw(A), L(OA1), L(O1(B, JInt(2))), Fa, Ref(Fa) }
-FnCases == { Fn(n, <<>>) : n \in AllFns } \cup { Fn(n, <<x>>) : n \in AllFns, x \in ArgsBig }
-           \cup { Fn(n, <<x, y>>) : n \in AllFns, x \in ArgsBig, y \in ArgsBig }
-           \cup { Fn(n, <<x, y, z>>) : n \in AllFns, x \in ArgsSmall, y \in ArgsSmall, z \in ArgsSmall }
+FnCases(u) == { Fn(n, <<>>) : n \in AllFns } \cup { Fn(n, <<x>>) : n \in AllFns, x \in ArgsBig }
+           \cup { Fn(n, <<x, y>>) : n \in { m \in AllFns : Arity(m) # 1 }, x \in ArgsBig, y \in ArgsBig }
+           \cup { Fn(n, <<x, y>>) : n \in { m \in AllFns : Arity(m) = 1 }, x \in ArgsSmall, y \in ArgsSmall }
+           \cup { Fn(n, <<x, y, z>>) : n \in {"merge", "not_null"}, x \in ArgsSmall, y \in ArgsSmall, z \in ArgsSmall }
+           \cup { Fn(n, <<x, Fa, L(JNull)>>) : n \in AllFns, x \in ArgsSmall }
 FnOuter(x) == { y \in { <<"prj", Fa, x>>, <<"pipe", x, <<"idx", Cur, 0>>>>, <<"idx", x, 0>>, <<"sub", x, Fa>>, <<"mls", <<x, Fa>>>>,
-                        <<"flt", x, Cur>>, Fn("to_array", <<x>>), <<"or", x, Fa>>, Not(x), <<"fil", Fa, x, Cur>> } : Renderable(y) }
+                        <<"flt", x, Cur>>, Fn("to_array", <<x>>), <<"or", x, Fa>>, Not(x), <<"fil", Fa, x, Cur>> } : Gen(y) }
 
 (* slice mode *)
 Parts == {Ab} \cup { N(i) : i \in 0..SlRange } \cup { N(Neg(i)) : i \in 1..SlRange }
-SliceCases == { <<"slc", Cur, Sl(a, b, c), Cur>> : a \in Parts, b \in Parts, c \in Parts }
+SliceCases(u) == { <<"slc", Cur, Sl(a, b, c), Cur>> : a \in Parts, b \in Parts, c \in Parts }
               \cup { <<"slc", Fa, Sl(a, b, c), Fa>> : a \in Parts, b \in {Ab, N(1), N(Neg(1))}, c \in Parts }
               \cup { <<"idx", Cur, i>> : i \in (0 - SlRange - 2)..(SlRange + 2) }
 
 (* cmp mode *)
 AllOps == {"eq", "ne", "lt", "le", "gt", "ge"}
 CV == { CmpVals[i] : i \in 1..Len(CmpVals) }
-CmpCases == { Cmp(op, L(x), L(y)) : op \in AllOps, x \in CV, y \in CV }
+CmpCases(u) == { Cmp(op, L(x), L(y)) : op \in AllOps, x \in CV, y \in CV }
             \cup { <<"and", L(x), L(y)>> : x \in CV, y \in CV } \cup { <<"or", L(x), L(y)>> : x \in CV, y \in CV }
             \cup { Not(L(x)) : x \in CV } \cup { Not(Not(L(x))) : x \in CV }
             \cup { <<"fil", Cur, Cmp(op, Cur, L(y)), Cur>> : op \in AllOps, y \in CV }
@@ -190,7 +198,7 @@ CmpCases == { Cmp(op, L(x), L(y)) : op \in AllOps, x \in CV, y \in CV }
             \cup { <<"or", Cmp("lt", L(x), L(y)), Cmp("eq", L(y), L(z))>> : x \in {JInt(0), JInt(1)}, y \in {JInt(1), S(A)}, z \in {JInt(1), JNull} }
 
 (* ident mode *)
-IdentCases == { <<"fld", k>> : k \in IdentKeys } \cup { <<"sub", Fa, <<"fld", k>>>> : k \in IdentKeys }
+IdentCases(u) == { <<"fld", k>> : k \in IdentKeys } \cup { <<"sub", Fa, <<"fld", k>>>> : k \in IdentKeys }
               \cup { <<"mhs", <<<<k, <<"fld", k>>>>, <<A, Cur>>>>>> : k \in IdentKeys \ {A} } \cup { L(S(k)) : k \in IdentKeys }
               \cup { Raw(k) : k \in IdentKeys \ {KBack, KNl} } \cup { Raw(<<97, 39, 98>>), Raw(<<39>>), Raw(<<>>), L(S(<<>>)) }
               \cup { L(JObj(k :> JInt(1))) : k \in IdentKeys \cup {<<>>} } \cup { L(Ar(<<S(k), S(A)>>)) : k \in IdentKeys }
@@ -200,10 +208,10 @@ IdentCases == { <<"fld", k>> : k \in IdentKeys } \cup { <<"sub", Fa, <<"fld", k>
                      Fn("sort", <<Fn("values", <<Fa>>)>>), Fn("max", <<Fn("keys", <<Fa>>)>>), Fn("join", <<Raw(KAcute), Fn("sort", <<Fn("keys", <<Fa>>)>>)>>) }
 
 -----------------------------------------------------------------------------
-First == CASE Mode = "wrap" -> Bases [] Mode = "fn" -> FnCases [] Mode = "slice" -> SliceCases [] Mode = "cmp" -> CmpCases
-           [] Mode = "ident" -> IdentCases [] Mode = "docs" -> { I(i) : i \in 1..Len(Docs) }
+First == CASE Mode = "wrap" -> Bases [] Mode = "fn" -> FnCases(0) [] Mode = "slice" -> SliceCases(0) [] Mode = "cmp" -> CmpCases(0)
+           [] Mode = "ident" -> IdentCases(0) [] Mode = "docs" -> { I(i) : i \in 1..Len(Docs) }
 Init == e = Cur /\ depth = 0
-Next == \/ /\ depth = 0 /\ depth' = 1 /\ e' \in { x \in First : Renderable(x) }
+Next == \/ /\ depth = 0 /\ depth' = 1 /\ e' \in { x \in First : Gen(x) }
         \/ /\ depth >= 1 /\ depth < MaxDepth /\ depth' = depth + 1
            /\ CASE Mode = "wrap" -> e' \in Wraps(e)
                 [] Mode = "fn" -> e' \in FnOuter(e)
@@ -211,8 +219,9 @@ Next == \/ /\ depth = 0 /\ depth' = 1 /\ e' \in { x \in First : Renderable(x) }
 View == e
 
 Enc(r) == IF r[1] = "err" THEN <<"e", r[2]>> ELSE IF r[1] = "dc" THEN <<"dc", r[2]>> ELSE <<"v", Wire(r)>>
-Res(x, d, uo) == LET ra == Ev(x, d, "asc") IN
-                 IF uo THEN (LET rd == Ev(x, d, "desc") IN IF ra = rd THEN Enc(ra) ELSE <<"od", Enc(ra), Enc(rd)>>) ELSE Enc(ra)
+XF == (IF ExcludeFilterOnNonArray THEN {"filter-on-non-array"} ELSE {}) \cup (IF ExcludeMergeNoOverride THEN {"merge-no-override"} ELSE {})
+Res(x, d, uo) == LET ra == Ev(x, d, Env("asc", XF)) IN
+                 IF uo THEN (LET rd == Ev(x, d, Env("desc", XF)) IN IF ra = rd THEN Enc(ra) ELSE <<"od", Enc(ra), Enc(rd)>>) ELSE Enc(ra)
 CaseRec == LET uo == UsesOrder(e)
                base == [e |-> Show(e), ds |-> DocSel, r |-> [i \in 1..Len(DocSel) |-> Res(e, Docs[DocSel[i]], uo)], se |-> StaticErr(e)]
            IN IF EmitAst THEN [e |-> base.e, ds |-> base.ds, r |-> base.r, se |-> base.se, ast |-> AstWire(e)] ELSE base
@@ -225,7 +234,7 @@ Emit == IF depth = 0 THEN TRUE
 (* specification text, checked on every (expression, document) enumerated.  *)
 NoNulls(s) == SelectSeq(s, LAMBDA x : x[1] # "null")
 Flat(s) == \A i \in 1..Len(s) : s[i][1] # "arr"
-E1(x, v) == Ev(x, v, "asc")
+E1(x, v) == Search(x, v)
 \* closed form of the number of elements a slice selects (RFC 9535 2.3.4.2.2 gives the same normalisation)
 SliceCount(len, sl) == LET step == IF sl[3] = <<>> THEN 1 ELSE sl[3][1]
                            lo == IF sl[1] = <<>> THEN (IF step < 0 THEN len - 1 ELSE 0) ELSE Clamp(len, sl[1][1], step)
